@@ -111,6 +111,18 @@ class RFFKernel(Kernel):
             )
         self.register_buffer("randn_weights", randn_weights)
 
+    def _load_from_state_dict(
+        self, state_dict, prefix, local_metadata, strict, missing_keys, unexpected_keys, error_msgs
+    ):
+        # randn_weights is registered lazily (on the first forward call) when num_dims is not given to the
+        # constructor. A freshly constructed kernel must still be able to receive the random features of a saved one.
+        key = prefix + "randn_weights"
+        if key in state_dict and not hasattr(self, "randn_weights"):
+            self._init_weights(randn_weights=torch.empty_like(state_dict[key], device=self.raw_lengthscale.device))
+        super()._load_from_state_dict(
+            state_dict, prefix, local_metadata, strict, missing_keys, unexpected_keys, error_msgs
+        )
+
     def forward(self, x1: Tensor, x2: Tensor, diag: bool = False, last_dim_is_batch: bool = False, **kwargs) -> Tensor:
         if last_dim_is_batch:
             x1 = x1.transpose(-1, -2).unsqueeze(-1)
